@@ -128,3 +128,9 @@ GROUPS += [
           flags=["--no-malloc-may-fail"], must_fail=["reach_end", "reach_accepted_two_terms", "reach_missing_rhs"], functions=["ILLread_one_constraint", "ILLread_constraint_expr", "add_var"],
           props=["C10", "C11", "C18", "C17"], assumed=["lp/one_constraint: the scanner functions, the symbol table lookup and the raw-problem adders are ghost-recording stubs"]),
 ]
+
+GROUPS += [
+    Group("lp/minmax", "lp_minmax.c", tus=["lp_mpq.c", "util.c"], model=MODEL, dfcc=False, export_static=True, unwind=12, kind="bounded", namebuf=512, timeout=900,
+          bound="constructed first words: the six documented spellings in every letter case, four non-keywords; at / not at the beginning of the line; loops completely unwound",
+          functions=["read_minmax"], props=["C10", "C11", "C17"], assumed=["lp/minmax: static read_minmax called through goto-cc --export-file-local-symbols; strcasecmp is modelled by a plain loop"]),
+]
